@@ -465,6 +465,9 @@ fn eq_vec_f64(a: &Vec<f64>, b: &Vec<f64>) -> bool {
 
 /// Callback receiving the concrete typed value.
 pub trait TypedVisitor {
+    /// Called before `visit`: the value contains an infinite float (classification of a recorded finding).
+    fn note_infinite_float(&mut self, _present: bool) {}
+
     fn visit<T>(&mut self, type_name: &'static str, value: T, eq: fn(&T, &T) -> bool)
     where
         T: StructuralWritable + RecognizerReadable + Debug + Clone + Unpin,
@@ -513,6 +516,14 @@ impl TV {
 
     pub fn dispatch<V: TypedVisitor>(&self, vis: &mut V) {
         let name = self.type_name();
+        let infinite = match self {
+            TV::F64(b) => f64::from_bits(*b).is_infinite(),
+            TV::VecF64(v) => v.iter().any(|b| f64::from_bits(*b).is_infinite()),
+            TV::Hdr { x, .. } => f64::from_bits(*x).is_infinite(),
+            TV::ShapeCircle(r) => f64::from_bits(*r).is_infinite(),
+            _ => false,
+        };
+        vis.note_infinite_float(infinite);
         match self {
             TV::Unit => vis.visit(name, (), eq_std),
             TV::I32(n) => vis.visit(name, *n, eq_std),
